@@ -245,6 +245,44 @@ def r11_client_admits_every_reply(ck, cx, rule='R11'):
     ck.floor(rule, n, 2, 'receive call and wildcard rows')
 
 
+def r12_every_chunk_reaches_the_framer(ck, cx, rule='R12'):
+    """Routing by transaction id happens per decoded frame, inside the framer callback.  Whatever dataReceived decides about a chunk
+    before the framer saw it is decided about its first bytes only -- a segment can carry several replies.  So every normally
+    returning path of dataReceived hands the received chunk, unmodified, to framer.processIncomingPacket (an empty chunk aside)."""
+    ck.rule(rule, 'every received chunk reaches the framer: dataReceived has no path that returns without framer.processIncomingPacket(<the chunk>, ...)')
+    from ..common import annotate
+    n = 0
+    k = cx.idx.cls(PROTO)
+    f = cx.method(k, 'dataReceived')
+    ck.saw('functions', f.qn)
+    data = f.params[1]
+    empty = {data: False, 'not %s' % data: True, 'len(%s) == 0' % data: True, 'len(%s)' % data: False, 'len(%s) > 0' % data: False, 'len(%s) < 1' % data: True}
+    for p in cx.enum(f, k, max_depth=0):
+        annotate(p, heap=False)
+        if isinstance(p.exit, tuple) and p.exit[0] == 'exc':
+            continue
+        n += 1
+        fed, why = False, None
+        for e in p.ev:
+            t = getattr(e, '_sub', None)
+            if e.kind == 'cond' and t is not None and empty.get(U(t)) is e.a and U(t) in empty:
+                fed = True              # nothing was received
+            if e.kind == 'call' and callee_name(e.node) == 'processIncomingPacket' and t is not None:
+                a0 = t.args[0] if t.args else {x.arg: x.value for x in t.keywords}.get('data')
+                if a0 is not None and U(a0) == data:
+                    fed = True
+                else:
+                    why = 'hands `%s` to the framer instead of the chunk' % (U(a0)[:40] if a0 is not None else None)
+            if e.kind in ('assign', 'aug') and isinstance(e.a, ast.Name) and e.a.id == data and not fed:
+                why = 'rebinds `%s` before the framer call' % data
+                break
+        conds = [('' if e.a else 'not ') + U(e._sub)[:50] for e in p.ev if e.kind == 'cond' and getattr(e, '_sub', None) is not None]
+        ck.ob(rule, f.qn, 'path [%s] feeds the chunk to the framer' % '; '.join(conds)[:80], fed and why is None, detail='chunk-not-fed-to-framer', loc=cx.floc(f, p.ev[-1].node if p.ev else None),
+              message='%s returns %s when [%s]: the decision is taken on the first bytes of the chunk, but a segment can carry several replies — the ones behind it are '
+                      'never decoded and their deferreds never fire' % (f.qn, why or 'without handing the received chunk to framer.processIncomingPacket', '; '.join(conds)[:160]))
+    ck.floor(rule, n, 1, 'normally returning paths of dataReceived')
+
+
 def run(ck, tier):
     cx = Ctx()
     ck.rule('R1', 'execute: id from getNextTID assigned before buildPacket; deferred registered under that id')
@@ -313,4 +351,5 @@ def run(ck, tier):
     from .. import ownership as _own3
     ck.guard(_own3.rule_instance_owned, ck, cx, 'R10', _own3.TWISTED_CLIENTS, 'the receive buffer and the pending-request table of one connection are used by every other connection of the process (a fragment left by one shifts the replies of all)', 3, None, ('framer', 'transaction'))
     ck.guard(r11_client_admits_every_reply, ck, cx)
+    ck.guard(r12_every_chunk_reaches_the_framer, ck, cx)
     return cx.idx
